@@ -96,12 +96,16 @@ def run_case(c):
     ner.ner_net = ner_net_logged
     ner.copy_and_disconnect_tree = copy_logged
     placements = dict((v, tuple(xy)) for v, xy in c["placements"])
-    allocations = dict((v, {Cores: slice(a, b)}) for v, (a, b) in c["allocs"])
+    core_res = Cores if c.get("core_res") is None else c["core_res"]
+    allocations = dict((v, {core_res: slice(a, b)}) for v, (a, b) in c["allocs"])
+    if c.get("decoy"):
+        for v in allocations:
+            allocations[v][Cores] = slice(0, 1)      # must be ignored: the caller's resource is core_res
     constraints = [RouteEndpointConstraint(v, Routes(r)) for v, r in c["cons"]]
     nets = [Net(n["source"], list(n["sinks"])) for n in c["nets"]]
     out = dict(has_wrap=bool(machine.has_wrap_around_links()), error=None)
     try:
-        routes = ner.route({}, nets, machine, constraints, placements, allocations, Cores, c["radius"])
+        routes = ner.route({}, nets, machine, constraints, placements, allocations, core_res, c["radius"])
         for e, n in zip(log, nets):
             e["final"] = ser_safe(routes[n])
     except MachineHasDisconnectedSubregion:
